@@ -397,8 +397,15 @@ def rule_until(program, ctx, prop=P, rid="C08.until"):
     )
     sc = program.func("nostr_relay.storage.kv:Index.scanner")
     ops = []
+    # the parameter and every local that holds its byte rendering (`until = until.to_bytes(4, 'big')`, under whatever name)
+    names = {"until"}
+    for _ in range(2):
+        for s_ in ast.walk(sc):
+            if isinstance(s_, ast.Assign) and isinstance(s_.value, ast.Call) and isinstance(s_.value.func, ast.Attribute) and s_.value.func.attr == "to_bytes" \
+                    and dotted(s_.value.func.value) in names:
+                names |= {t.id for t in s_.targets if isinstance(t, ast.Name)}
     for c in ast.walk(sc):
-        if isinstance(c, ast.Compare) and len(c.ops) == 1 and dotted(c.comparators[0]) == "until" and isinstance(c.left, ast.Name):
+        if isinstance(c, ast.Compare) and len(c.ops) == 1 and dotted(c.comparators[0]) in names and isinstance(c.left, ast.Name):
             ops.append(c)
     if not ops:
         ctx.bad(finding_func(prop, rid, sc, "Index.scanner no longer compares key timestamps with `until`", text="def scanner(...) :: until"))
